@@ -134,5 +134,30 @@ pub fn run(cfg: &Cfg) {
             }
         }
     }
+    // ---- randomised schemes: every length a signature can have. An ECDSA signature is a DER pair of
+    //      minimal integers (68 to 72 bytes for P-256; the short ones are rare), so sign again and again
+    //      until each length has been through the wire trip
+    let link = MetadataWrapper::Link(gen_link(&mut r, Some("lengths")));
+    for k in pool.iter().filter(|k| k.scheme == in_toto::crypto::SignatureScheme::EcdsaP256Sha256).take(2) {
+        let mut seen: std::collections::BTreeSet<usize> = Default::default();
+        let tries = if cfg.thorough { 40_000 } else { 8_000 };
+        for _ in 0..tries {
+            let mb = match Metablock::new(link.clone(), &[&k.key]) {
+                Ok(m) => m,
+                Err(_) => break,
+            };
+            let len = mb.signatures[0].value().as_bytes().len();
+            if !seen.insert(len) {
+                continue;
+            }
+            let text = serde_json::to_vec(&mb).unwrap();
+            let ok = match serde_json::from_slice::<Metablock>(&text) {
+                Ok(p) => p.verify(1, [k.public()]).map(|m| m == link).unwrap_or(false),
+                Err(_) => false,
+            };
+            sink.oracle(ok, "metadata signed by the library does not verify after the wire trip", &format!("signers=[{}] ecdsa signature of {} bytes: {}", k.label, len, hex(&text)));
+            sink.stat(&format!("ecdsa-signature-length/{}", len));
+        }
+    }
     sink.finish(&cfg.out, serde_json::json!({}));
 }
